@@ -287,6 +287,26 @@ func (env *SpecEnv) materialise(s *SeqV) (Term, Term) {
 	return n, s.Len
 }
 
+// materialiseRev is materialise plus the same definition indexed by the underlying array (trigger: a
+// read of that array), used where a sequence is identified with a ghost attribute: a ground read of
+// the program array then finds the attribute's element.
+func (env *SpecEnv) materialiseRev(s *SeqV) (Term, Term) {
+	row, off, hasRow := s.Row, s.Off, s.HasRow && !s.HasA
+	n, ln := env.materialise(s)
+	if !hasRow || env.quant > 0 || strings.Contains(row.S, "$") || strings.Contains(off.S, "$") || strings.Contains(ln.S, "$") {
+		return n, ln
+	}
+	c := env.x.ctx
+	key := "matrev|" + n.S
+	if _, done := c.named[key]; done {
+		return n, ln
+	}
+	c.named[key] = TTrue
+	j := Term{S: "j$m", Sort: SInt}
+	c.Assume(Forall([]Term{j}, Implies(And(Le(off, j), Lt(j, Add(off, ln))), Eq(Select(row, j), Select(n, Sub(j, off)))), Select(row, j)))
+	return n, ln
+}
+
 func (env *SpecEnv) tryMaterialise(a, b *SeqV) (ma, mb Term, ok bool) {
 	defer func() {
 		if r := recover(); r != nil {
@@ -428,7 +448,10 @@ func (env *SpecEnv) strSeq(s string) *SeqV {
 func (env *SpecEnv) ite(c Term, a, b *Value) *Value {
 	if env.isSeqLike(a) || env.isSeqLike(b) || a.Seq != nil || b.Seq != nil {
 		sa, sb := env.toSeq(a), env.toSeq(b)
-		return seqVal(&SeqV{Len: Ite(c, sa.Len, sb.Len), At: func(i Term) Term { return Ite(c, sa.At(i), sb.At(i)) }})
+		if env.quant == 0 {
+			c = shareLen(c)
+		}
+		return seqVal(&SeqV{Len: shareLen(Ite(c, sa.Len, sb.Len)), At: func(i Term) Term { return Ite(c, sa.At(i), sb.At(i)) }})
 	}
 	if len(a.C) != len(b.C) {
 		sfail("?: branches of different shape (%s vs %s)", describe(a), describe(b))
@@ -547,6 +570,9 @@ func (env *SpecEnv) sel(n *ESel) *Value {
 	if v.Seq != nil || v.T == nil {
 		sfail("field %s of non-program value", n.Name)
 	}
+	if rec := env.ghostRecord(v, n.Name); rec != nil {
+		return seqVal(rec.seq)
+	}
 	// auto-deref
 	if pt, ok := v.T.Underlying().(*types.Pointer); ok {
 		if isGhostType(pt.Elem()) {
@@ -603,6 +629,38 @@ func (env *SpecEnv) sel(n *ESel) *Value {
 		x.ctx.Assume(x.eng.typeInv(cur, env.st.alloc))
 	}
 	return cur
+}
+
+// ghostKey: the heap key and record key of a ghost sequence field behind a plain heap pointer.
+func (env *SpecEnv) ghostKey(v *Value, name string) (string, string, bool) {
+	x := env.x
+	if v == nil || v.T == nil || !isPointer(v.T) || env.st == nil {
+		return "", "", false
+	}
+	off, _, srt, ok := x.eng.ghostField(v.T, name)
+	if !ok || srt != "seq" {
+		return "", "", false
+	}
+	p := x.normPtr(x.ptrOf(v))
+	o, _, idx := x.compRange(p)
+	if p.Local != nil || p.Global != nil || p.Elem || len(idx) > 0 {
+		return "", "", false
+	}
+	key, _ := x.eng.heapKey("H", p.RootT, o+off)
+	return key, key + "|" + p.Heap.S, true
+}
+
+// ghostRecord: the symbolic value recorded for a ghost sequence field, if the heap component is unchanged since.
+func (env *SpecEnv) ghostRecord(v *Value, name string) *ghostRec {
+	hk, rk, ok := env.ghostKey(v, name)
+	if !ok || env.st.gcontent == nil {
+		return nil
+	}
+	rec := env.st.gcontent[rk]
+	if rec == nil || env.x.heapGet(env.st, hk).S != rec.heapTerm {
+		return nil
+	}
+	return rec
 }
 
 func ghostFieldValue(v *Value, off, cnt int, srt string) *Value {
@@ -751,9 +809,28 @@ func (env *SpecEnv) bin(n *EBin) *Value {
 	return nil
 }
 
+// shareCtx is the context of the function being translated (VC generation is sequential); large
+// closed sub-terms of sequence lengths are bound to constants there so that nested concatenations
+// and conditionals do not repeat them.
+var shareCtx *Ctx
+
+func shareLen(t Term) Term {
+	if shareCtx == nil || len(t.S) < 48 || strings.Contains(t.S, "$") || os.Getenv("GVC_NOSHARE") != "" {
+		return t
+	}
+	return shareCtx.Name("slen", t)
+}
+
 func catSeq(a, b *SeqV) *SeqV {
-	return &SeqV{Len: Add(a.Len, b.Len), At: func(i Term) Term {
-		return Ite(Lt(i, a.Len), a.At(i), b.At(Sub(i, a.Len)))
+	if n, ok := litVal(a.Len); ok && n.Sign() == 0 {
+		return b
+	}
+	if n, ok := litVal(b.Len); ok && n.Sign() == 0 {
+		return a
+	}
+	al := shareLen(a.Len)
+	return &SeqV{Len: shareLen(Add(al, shareLen(b.Len))), At: func(i Term) Term {
+		return Ite(Lt(i, al), a.At(i), b.At(Sub(i, al)))
 	}}
 }
 
@@ -973,8 +1050,8 @@ func (env *SpecEnv) call(n *ECall) *Value {
 	case "seqid":
 		// the two sequences are one and the same (trusted specs of ghost attributes)
 		sa, sb := env.toSeq(env.eval(n.Args[0])), env.toSeq(env.eval(n.Args[1]))
-		ma, la := env.materialise(sa)
-		mb, lb := env.materialise(sb)
+		ma, la := env.materialiseRev(sa)
+		mb, lb := env.materialiseRev(sb)
 		return mkBool(And(Eq(ma, mb), Eq(la, lb)))
 	case "rd":
 		// remaining stream of a reader (interface value or *bytes.Buffer / *bytes.Reader)
